@@ -90,6 +90,12 @@ func runC17(c *CaseCtx) {
 	cc := concCfg{DBs: []Cfg{cfg}, Goroutines: gs, TxPerG: tier(c.Tier, 240, 500) / gs * 2, Shards: 1 + r.Intn(2), YieldP: []float64{0.05, 0.3}[r.Intn(2)],
 		Merge: 1 + r.Intn(2), KVSetsOnly: true, Class: class}
 	switch c.Case % 6 {
+	case 5:
+		cc.DrainedStart = true
+	case 2:
+		// the handle has completed a Merge before the workload: the workload's buckets are created on a handle whose
+		// per-bucket bookkeeping is no longer maintained as on a fresh one, and every Merge of the workload is a second one
+		cc.PreMerge = true
 	case 1:
 		// every record dead when the first Merge runs, workers queued on the lock meanwhile; with SyncEnable the
 		// Merge also syncs the directory after each removal
